@@ -6,5 +6,46 @@
 
 pub mod refmodel;
 
+/// An arbitrary index below `bound`, or None when there is none (never prunes paths,
+/// unlike `kani::assume(j < bound)` placed mid-harness).
+#[cfg(kani)]
+pub fn any_below(bound: usize) -> Option<usize> {
+    let j: usize = kani::any();
+    if j < bound {
+        Some(j)
+    } else {
+        None
+    }
+}
+
 #[cfg(kani)]
 mod c02;
+#[cfg(kani)]
+mod c03;
+#[cfg(kani)]
+mod c04;
+#[cfg(kani)]
+mod c05;
+#[cfg(kani)]
+mod c07;
+#[cfg(kani)]
+mod c09;
+#[cfg(kani)]
+mod c11;
+#[cfg(kani)]
+mod c12;
+#[cfg(kani)]
+mod c13;
+#[cfg(kani)]
+mod c14;
+#[cfg(kani)]
+mod c16;
+#[cfg(kani)]
+mod c17;
+#[cfg(kani)]
+mod c19;
+#[cfg(kani)]
+mod c20;
+
+#[cfg(kani)]
+mod playback_gen;
